@@ -77,6 +77,12 @@ class Report:
     def finish(self, checker_cmd):
         known, fixed = load_known()
         os.makedirs(os.path.join(VERIF, "evidence", "replay"), exist_ok=True)
+        import glob
+        for old in glob.glob(os.path.join(VERIF, "evidence", "replay", "%s-*.json" % self.prop)):
+            try:
+                os.remove(old)
+            except OSError:
+                pass
         failures = [o for o in self.obs if not o[2]]
         new = []
         for o in failures:
